@@ -34,14 +34,18 @@ CHECKS = {
             "pkg": BS, "funcs": ["VerifC13Concurrent"],
             "params": {"quick": {"T": 2}, "thorough": {"T": 4}},
             "covers": {"VerifC13Concurrent": ["saved", "loaded", "grew-during-save"]},
+        }, {
+            "pkg": BS, "funcs": ["VerifC13PendingQueue"],
+            "covers": {"VerifC13PendingQueue": ["replication-in-progress", "saved", "loaded"]},
         }],
         "assumptions": [
             "log shapes: empty, single-writer chain of T entries, two writers with a replicated entry (so the replicator's task table is non-empty); the real SaveSnapshot, GetQueue, LoadFromSnapshot, NewFromJSON, Join run over an in-memory Unixfs and cache",
             "size clause: every encoded header / entry / queue document has a SYMBOLIC byte length in [2, 2^20]; the snapshot file is a rope of segments with symbolic lengths, length prefixes are computed by the real uint16 conversions and PutUint16/Uint16 on symbolic values; a read at a symbolic offset asks the solver whether offset and length are forced to coincide with a written segment, otherwise the bytes read are unconstrained",
             "a counterexample of the size clause is replayed natively with payloads that are really that large",
+            "replication in progress with a non-empty stored queue (VerifC13PendingQueue): the replicator is stuck on a block of a remote chain when the snapshot is saved; a fresh instance loads it while the pending block (optionally every block of that chain) is unavailable; loading must return without error and hold the saved log in order, plus at most entries of the replication that was in progress",
             "replication / writes in progress (VerifC13Concurrent): a local write, or the Sync whose join ends a replication, is started at ANY visible operation of SaveSnapshot and runs until it blocks; the snapshot must load, and reload to a log between the one held when the save started and the one held when it ended",
         ],
-        "outside": ["unixfs chunking", "documents longer than 1 MiB", "JSON byte content", "snapshots taken while fetches are pending (the queue is non-empty): the reloaded log is then the saved one plus whatever the resumed fetches add"],
+        "outside": ["unixfs chunking", "documents longer than 1 MiB", "JSON byte content"],
     },
     "C18": {
         "groups": [{
@@ -192,7 +196,7 @@ CHECKS = {
             "params": {"quick": {"STEPS": 2, "P": 1}, "thorough": {"STEPS": 3, "P": 2}},
             "max_paths": {"quick": 60000, "thorough": 800000},
             "timeout": {"quick": "10m", "thorough": "90m"},
-            "covers": {"VerifC09Isolation": ["write-on-a", "replicate-on-a", "load-on-a", "interleaved-writes"]},
+            "covers": {"VerifC09Isolation": ["write-on-a", "replicate-on-a", "load-on-a", "foreign-head-on-a", "interleaved-writes"]},
         }, {
             "pkg": ODB, "funcs": ["VerifSysTwoDBs"],
             "params": {"quick": {"N": 2}, "thorough": {"N": 3}},
@@ -206,7 +210,7 @@ CHECKS = {
         }],
         "assumptions": [
             "two databases opened by one process: two real BaseStores initialised by InitBaseStore on ONE shared event bus, one pubsub (topics per address, each with a peer so that publications are not suppressed) and one direct channel; replication enabled",
-            "a sequence of STEPS actions on database A (local write with symbolic payload; replication of a head written by a remote process; load), run to quiescence after each",
+            "a sequence of STEPS actions on database A (local write with symbolic payload; replication of a head written by a remote process; load; A being handed a valid entry that was written for database B), run to quiescence after each",
             "oracle: nothing published on B's topic or sent on the direct channel; B's log, progress and maximum unchanged; every store event observed on the bus carries A's address",
             "then a write to B followed by a write to A under every thread schedule with at most P preemptions (switch or stall) at visible operations; every message published on a topic must name that topic's database and carry only its heads",
             "instance level (VerifSysTwoDBs, VerifSysHeal): two real orbitDB instances hold the same two databases (event log + key-value); both are written behind a partition, the head exchanges of both travel back to back over one direct channel through the real monitorDirectChannel / handleEventExchangeHeads routing and replicate concurrently on the shared bus; each database ends with exactly its own entries, its own replication status and events naming it; every wire message names the database whose heads it carries; an idle database stays untouched under a fault plan on its sibling",
@@ -380,7 +384,7 @@ CHECKS = {
             "params": {"quick": {"H": 1}, "thorough": {"H": 2}},
             "max_paths": {"quick": 60000, "thorough": 400000},
             "timeout": {"quick": "10m", "thorough": "60m"},
-            "covers": {"VerifSysMalformed": ["raw-bytes", "ill-typed", "malformed-heads", "misrouted-valid-head", "via-direct-channel", "via-topic-A", "via-topic-B", "burst", "valid-after"]},
+            "covers": {"VerifSysMalformed": ["raw-bytes", "ill-typed", "malformed-heads", "misrouted-valid-head", "foreign-head-for-A", "via-direct-channel", "via-topic-A", "via-topic-B", "burst", "valid-after"]},
         }],
         "assumptions": [
             "raw direct-channel stream = ANY byte string of length 0..B (every byte symbolic): every varint incl. 10-byte overflowing ones and every declared length; real bufio.Reader, binary.ReadUvarint, io.ReadFull are interpreted",
